@@ -10,7 +10,7 @@ run() { (cd $wt && PYTHONPATH=$wt/src PYTHONHASHSEED=0 timeout 1800 /venv/bin/py
 run $inc/demo$k.py > $inc/demo${k}_clean.log 2>&1; d0=$?
 git apply $inc/patch$k.diff || { echo "{\"applies\": false}" > $out; exit 1; }
 run $inc/demo$k.py > $inc/demo${k}_mut.log 2>&1; d1=$?
-run -m pytest -q -p no:cacheprovider --timeout=900 -x --deselect tests/Benchmarks/SingletSM_Z2/test_EOM.py --deselect tests/test_Boltzmann.py -n 4 > $inc/tests$k.log 2>&1; t=$?
+run -m pytest -q -p no:cacheprovider --timeout=900 -x --deselect tests/Benchmarks/SingletSM_Z2/test_EOM.py --deselect tests/test_Boltzmann.py > $inc/tests$k.log 2>&1; t=$?
 summary=$(tail -1 $inc/tests$k.log)
 git checkout -q -- .
 echo "{\"applies\": true, \"demo_clean_exit\": $d0, \"demo_mutant_exit\": $d1, \"tests_exit\": $t, \"tests_summary\": \"$summary\"}" > $out
